@@ -6,6 +6,7 @@ from fractions import Fraction as F
 from vlib.framework import Family
 from vlib import coqlit as L
 from vlib.exactq import ExactQ, to_frac
+from C11_util import ExactC, real_frac
 
 PID = "C11"
 PROP_FILES = ["Prop", "PropStab"]
@@ -27,7 +28,11 @@ RULE = ("lev: autocorrelation lags synthesised from chosen rational reflection v
         "twin-first, exact-first and sandwich order; one lag container (list, tuple, deque, bounded deque; generator and "
         "iterator must raise TypeError) analysed with over-long, default and short orders in turn and re-read after every "
         "call; parcor run twice and as two interleaved generators on one filter object. Every step on exact objects "
-        "must equal the per-call model / spec on the original values.")
+        "must equal the per-call model / spec on the original values. Number kinds: the stab and pc families also let "
+        "the LIBRARY multiply the denominator out of first-order sections whose conjugate pairs are complex numbers "
+        "(harness class ExactC: exact, complex-typed even when real valued, no ordering; Python complex with dyadic "
+        "non-critical roots), members of a pair adjacent or not, real or complex-typed gains; histories add ExactC and "
+        "complex twins.")
 EXHAUSTIVE = {"quick": False, "thorough": False}
 trusted_base = ["coefficients are exact rationals (ExactQ); the float 0.0 that Poly returns for an absent coefficient is "
                 "absorbed exactly",
@@ -212,7 +217,7 @@ def observe_parcor(mk, cap):
   try:
     filt = mk()
     for k in audiolazy.parcor(filt):
-      ks.append(fr(to_frac(k)))
+      ks.append(fr(real_frac(k)))
       if len(ks) > cap:            # (cap >= order of the filter) a generator that does not end is an observation, not a hang
         return {"raise": "EndlessGenerator", "ks": ks[:4]}
   except audiolazy.ParCorError:
@@ -370,11 +375,42 @@ def gen_stab(tier, rng):
     yield case(roots, rng.choice(GAINS), ["random", "deg=%d" % deg, cls(roots)])
 
 
+def sections_filter(roots, gain, kind, gain_complex, rng_order=0):
+  """prod (1 - p z^-1) over the chosen roots, each conjugate pair given as two COMPLEX numbers (exact ExactC for
+  kind "cx", Python complex for kind "cf"), times the gain: the way a user builds a denominator from its poles.
+  The coefficients are real valued but stay complex-typed."""
+  import audiolazy
+  z = audiolazy.z
+  if kind == "cx":
+    cnum = lambda re, im: ExactC(re, im)
+    rnum = lambda v: ExactC(v) if rng_order % 3 else ExactQ(v)
+  else:
+    cnum = lambda re, im: complex(float(re), float(im))
+    rnum = lambda v: float(v)
+  ps = []
+  for x, y in roots:
+    if y == 0:
+      ps.append(rnum(x))
+    else:
+      ps += [cnum(x, y), cnum(x, -y)]
+  if rng_order % 2:                     # the two members of a pair need not be adjacent
+    ps = ps[::2] + ps[1::2]
+  g = cnum(gain, 0) if gain_complex else (ExactQ(gain) if kind == "cx" else float(gain))
+  den = audiolazy.ZFilter(g)
+  for p in ps:
+    den = den * (1 - p * z ** -1)
+  return den
+
+
 def run_stab(c):
   import audiolazy
-  den = [ExactQ(unfr(p)) for p in c["den"]]
   try:
-    filt = audiolazy.ZFilter([ExactQ(1)], den)
+    if c.get("build", "list") in ("cx", "cf"):
+      roots = [(unfr(x), unfr(y)) for x, y in c["roots"]]
+      filt = 1 / sections_filter(roots, unfr(c["gain"]), c["build"], c.get("gain_complex", False), c.get("ord", 0))
+    else:
+      den = [ExactQ(unfr(p)) for p in c["den"]]
+      filt = audiolazy.ZFilter([ExactQ(1)], den)
     b = audiolazy.parcor_stable(filt)
   except Exception as e:
     return {"raise": type(e).__name__}
@@ -456,6 +492,8 @@ def _conv(elt):
   if elt == "f": return lambda v: float(F(v))
   if elt == "F": return lambda v: F(v)
   if elt == "i": return lambda v: int(v) if F(v).denominator == 1 else float(F(v))
+  if elt == "c": return lambda v: ExactC(F(v))               # exact, complex-typed
+  if elt == "cf": return lambda v: complex(float(F(v)), 0.0)  # Python complex twin
   raise ValueError(elt)
 
 
@@ -476,10 +514,10 @@ def gen_hist(tier, rng):
         roots.append(rt); deg += d
       rng.shuffle(roots)
       filters, steps = {}, []
-      twins = rng.sample(["f", "F", "i"], rng.randrange(1, 3))
+      twins = rng.sample(["f", "F", "i", "cf"], rng.randrange(1, 3))
       order = rng.choice(["twin-first", "twin-first", "exact-first", "sandwich"])
       names = []
-      for j, elt in enumerate(["q"] + twins):
+      for j, elt in enumerate([rng.choice(["q", "q", "c"])] + twins):
         g = rng.choice(DY_GAINS)
         nm = "%s%d" % (elt, j)
         filters[nm] = {"roots": [[fr(x), fr(y)] for x, y in roots], "gain": fr(g), "elt": elt,
@@ -643,7 +681,7 @@ def lit_hist(c, o):
     if st[0] == "stab":
       spec = c["filters"][st[1]]
       roots = L.lst(["(%s, %s)" % (q(x), q(y)) for x, y in spec["roots"]])
-      lits.append("HStab %s %s %s %s %s" % (L.boolean(spec["elt"] == "q"), roots, q(spec["gain"]), ql(spec["den"]),
+      lits.append("HStab %s %s %s %s %s" % (L.boolean(spec["elt"] in ("q", "c")), roots, q(spec["gain"]), ql(spec["den"]),
                                            obs_lit(so, lambda v: L.boolean(v["stable"]))))
     elif st[0] in ("lev", "levpc"):
       spec = c["lags"][st[1]]
@@ -673,3 +711,90 @@ def nontrivial_hist(c, o):
 
 FAMILIES["hist"] = Family("hist", IMPORTS, "hcase", "corr_hist", "holds_hist", gen_hist, run_hist, lit_hist,
                           nontrivial_hist, timeout=30)
+
+
+# ------------------------------------------------------------------ round 3, class (f): number kinds
+# The same root-built denominators, now multiplied out BY THE LIBRARY from first-order sections whose conjugate pairs
+# are complex numbers (exact ExactC: any rational parts; Python complex: dyadic parts, no root on the circle so that
+# rounding cannot blur the verdict), with real or complex-typed gains.  The expected verdict is still "all chosen
+# roots strictly inside", so corr / holds apply unchanged to the exact expected coefficients c["den"].
+DY_ALL_NONCRIT = DY_IN + DY_OUT
+
+
+def gen_stab2(tier, rng):
+  for c in gen_stab(tier, rng):
+    yield c
+  def ccase(roots, g, build, tags, k):
+    den = den_from_roots(g, roots)
+    return {"roots": [[fr(x), fr(y)] for x, y in roots], "gain": fr(g), "den": [fr(x) for x in den],
+            "build": build, "gain_complex": bool(k % 2), "ord": k, "tags": tags}
+  def cls(roots):
+    if any(x * x + y * y > 1 for x, y in roots): return "outside"
+    if any(x * x + y * y == 1 for x, y in roots): return "on"
+    return "inside"
+  pairs = [r for r in ALL_ROOTS if r[1] != 0]
+  k = 0
+  for rt in pairs:                                   # every chosen pair alone and next to a real root, exact complex
+    for g in (GAINS[k % 5], GAINS[(k + 2) % 5]):
+      k += 1
+      yield ccase([rt], g, "cx", ["cx", "exh", cls([rt])], k)
+      other = (ALL_ROOTS[k % len(ALL_ROOTS)][0], F(0))
+      yield ccase([rt, other], g, "cx", ["cx", "exh", cls([rt, other])], k)
+  for _ in range(120 if tier == "quick" else 1200):
+    k += 1
+    target = rng.randrange(2, 7 if tier == "quick" else 9)
+    roots, deg = [], 0
+    while deg < target:
+      rt = rng.choice(pairs if rng.random() < 0.6 else ALL_ROOTS)
+      d = 1 if rt[1] == 0 else 2
+      if deg + d > target: continue
+      roots.append(rt); deg += d
+    yield ccase(roots, rng.choice(GAINS + [F(-3), F(1, 4)]), "cx", ["cx", "random", "deg=%d" % deg, cls(roots)], k)
+  dy_pairs = [r for r in DY_ALL_NONCRIT if r[1] != 0]
+  for _ in range(60 if tier == "quick" else 500):    # Python complex, dyadic, no critical root
+    k += 1
+    target = rng.randrange(2, 5)
+    roots, deg = [], 0
+    while deg < target:
+      rt = rng.choice(dy_pairs if rng.random() < 0.6 else DY_ALL_NONCRIT)
+      d = 1 if rt[1] == 0 else 2
+      if deg + d > target: continue
+      roots.append(rt); deg += d
+    yield ccase(roots, rng.choice([F(1), F(-3), F(1, 4), F(2)]), "cf", ["cf", "deg=%d" % deg, cls(roots)], k)
+
+
+FAMILIES["stab"] = Family("stab", IMPORTS, "scase", "corr_stab", "holds_stab", gen_stab2, run_stab, lit_stab,
+                          nontrivial_stab, timeout=30)
+
+
+# parcor itself on filters multiplied out from complex sections: the yielded coefficients are complex-typed but real
+# valued and must equal the model's on the exact expected numerator
+def gen_pc2(tier, rng):
+  for c in gen_pc(tier, rng):
+    yield c
+  pairs = [r for r in ALL_ROOTS if r[1] != 0]
+  for k in range(60 if tier == "quick" else 600):
+    target = rng.randrange(2, 7)
+    roots, deg = [], 0
+    while deg < target:
+      rt = rng.choice(pairs if rng.random() < 0.6 else ALL_ROOTS)
+      d = 1 if rt[1] == 0 else 2
+      if deg + d > target: continue
+      roots.append(rt); deg += d
+    yield {"num": [fr(x) for x in den_from_roots(F(1), roots)], "den": [fr(F(1))],
+           "croots": [[fr(x), fr(y)] for x, y in roots], "ord": k, "tags": ["cx-sections", "order=%d" % deg]}
+
+
+def run_pc2(c):
+  if "croots" not in c:
+    return run_pc(c)
+  try:
+    filt = sections_filter([(unfr(x), unfr(y)) for x, y in c["croots"]], F(1), "cx", bool(c["ord"] % 2), c["ord"])
+  except Exception as e:
+    return {"raise": type(e).__name__, "where": "constructor"}
+  return observe_parcor(lambda: filt, len(c["num"]) + 8)
+
+
+FAMILIES["pc"] = Family("pc", IMPORTS, "pcase", "corr_pc", "holds_pc", gen_pc2, run_pc2, lit_pc, nontrivial_pc, timeout=30)
+# keep the histories last (they were registered before the two families above were replaced)
+FAMILIES["hist"] = FAMILIES.pop("hist")
